@@ -20,7 +20,7 @@ def run(args):
     else:
         os.makedirs(ctx.scratch, exist_ok=True)
         cases, metas = ctx.run_harness("c11", extra=[ctx.scratch], timeout=3400)
-        render = [c for c in cases if c[0].startswith("c11 render ")]
+        render = [c for c in cases if c[0].startswith("c11 render")]
         pipe = [c for c in cases if c[0].startswith("c11 pipe ")]
         model = ctx.run_driver([c[0] for c in render])
         ctx.evaluations = len(cases)
